@@ -193,6 +193,7 @@ fn main() {
                     let ctx = exec_guarded::<F>(&s, false);
                     let o = ctx.violation.as_ref().map(|v| v.oracle.clone()).unwrap_or_else(|| "-".to_string());
                     let _ = writeln!(out, "D {} {:016x} {} {}", i, ctx.digest, o, ctx.ops);
+                    let _ = out.flush();
                 }
                 0
             })
